@@ -23,6 +23,9 @@ def perform(run, action, prev_state, new_state):
         if got != want:
             return 'specification runs handle %r, implementation has %r' % (want, got)
         return None
+    if action in ('EnvRpc', 'EnvBcast'):
+        run.deliver('rpc' if action == 'EnvRpc' else 'bcast', params[0], params[1])
+        return None
     if action == 'EnvComplete':
         run.complete(params[0], params[1][0], params[1][1])
         return None
@@ -60,7 +63,8 @@ def compare(run, state, fields=None):
             continue
         if want[k] != got[k]:
             diffs.append((k, want[k], got[k]))
-    wlog = core_real.norm(state['S']['log'])
+    # control calls made by the RPC reply task are internal: their effect and their reply are what is observed
+    wlog = [e for e in core_real.norm(state['S']['log']) if not (e[0] == 'call' and e[5] == 'rpc')]
     glog = core_real.norm(run.log)
     if not run.use_listener:           # checkpoint runs carry no listener (listeners would be deep-copied into the bundle)
         wlog = [e for e in wlog if e[0] != 'notify']
